@@ -356,9 +356,12 @@ example : (givensElems (1/100000000) ⟨3/5, 0⟩ ⟨0, 4/5⟩ true).toOption.ma
     (fun G => (G.g00, G.g01, G.g10, G.g11)) = some (⟨3/5, 0⟩, ⟨0, -4/5⟩, ⟨4/5, 0⟩, ⟨0, 3/5⟩) := by decide +kernel
 example : small (1/100000000) ⟨3/5, 0⟩ = false ∧ small (1/100000000) ⟨0, 4/5⟩ = false ∧
     realish (1/100000000) ⟨3/5, 0⟩ ⟨0, 4/5⟩ = false := by decide +kernel
--- non-vacuity (a = 0, complex b, 'right': the signed-zero case)
+-- a = 0, complex b, 'right': since the repair 7be94873 of /repo (realness decided by the relative phase,
+-- which is 1.0 in the `a` negligible branch) this is the real form, `G₁₁ = +0.0`; the signed-zero case of the
+-- complex form is no longer reachable from `givens_matrix_elements` (the `assemble` lemma still covers it)
 example : (givensElems (1/100000000) 0 ⟨0, 1⟩ true).toOption.map (fun G => (G.g11, G.negZero11)) =
-    some (0, true) := by decide +kernel
+    some (0, false) := by decide +kernel
+example : (assemble true false 1 0 1).negZero11 = true := by decide +kernel
 
 /-- signed zero matters: with `a = 0`, complex `b` and `which='right'` the Model yields `G₁₁ = -0.0` and
 `e^{iφ} = -1`; with `+0.0` (`e^{iφ} = 1`) the rebuilt rotation would differ from `G` in entry `[0,1]` -/
